@@ -740,3 +740,32 @@ def replay_mpc_roundtrip(obligation=None, model=None, meta=None):
 
 
 replay_mpc_roundtrip.real_system = True
+
+
+def replay_psse_load(obligation=None, model=None, meta=None):
+    """native run of the real _parse_load_v33 on a stub system: load records with constant-power, constant-current and
+    constant-admittance parts (PSS/E enters YQ negative for an inductive load) against the record arithmetic done here"""
+    import andes.io.psse as P
+    from contracts.packutil import Stub
+    n = 0
+    added = []
+    saved = P._add_devices_from_dict
+    P._add_devices_from_dict = lambda out, system: added.append(out)
+    try:
+        for rec, vn, v0, mva in (([7, '1', 1, 1, 1, 20.0, 8.0, 0.0, 0.0, 0.0, 0.0, 1], 138.0, 1.02, 100.0),
+                                 ([7, '1', 1, 1, 1, 10.0, 4.0, 6.0, 2.0, 5.0, -3.0, 1], 138.0, 1.05, 100.0),
+                                 ([9, '2', 0, 2, 1, 0.0, 0.0, 0.0, 0.0, 12.0, 7.5, 2], 69.0, 0.97, 50.0),
+                                 ([3, '1', 1, 1, 1, 1.0, 2.0, 3.0, 4.0, 0.0, 0.0, 1], 230.0, 0.9, 100.0)):
+            system = Stub(config=Stub(mva=mva), Bus=Stub(get=lambda src, idx, attr, vn=vn, v0=v0: {'Vn': vn, 'v0': v0}[src]))
+            n += 1
+            out = P._parse_load_v33({'load': [list(rec)]}, system)
+            got = out['PQ'][0]
+            want = {'bus': rec[0], 'u': rec[2], 'Vn': vn, 'p0': (rec[5] + rec[7] * v0 + rec[9] * v0 ** 2) / mva,
+                    'q0': (rec[6] + rec[8] * v0 - rec[10] * v0 ** 2) / mva, 'owner': rec[11]}
+            bad = {k: (got.get(k), w) for k, w in want.items() if got.get(k) is None or (abs(got[k] - w) > 1e-12 if isinstance(w, float) else got[k] != w)}
+            if bad or len(out['PQ']) != 1:
+                return {'confirmed': True, 'inputs': {'load record (I, ID, STATUS, AREA, ZONE, PL, QL, IP, IQ, YP, YQ, OWNER)': rec, 'bus voltage': v0, 'system MVA': mva},
+                        'observed': 'fields (parsed, from the record): %r' % (bad,), 'native_cmd': "andes.io.psse._parse_load_v33({'load': [record]}, stub system)"}
+    finally:
+        P._add_devices_from_dict = saved
+    return {'confirmed': False, 'tried': n}
